@@ -606,8 +606,13 @@ func RandLayout(r *simrt.Rand, j *Journal, maxFiles int) *Layout {
 	l.Parent = []int{-1}
 	l.Names = []string{"main.knut"}
 	dirOf := []string{"."}
+	if r.P(0.2) {
+		// the root file in a directory of its own: includes may climb above it ("../shared/x.knut")
+		l.Names = []string{"books/main.knut"}
+		dirOf = []string{"books"}
+	}
 	common := r.P(0.3)
-	used := map[string]bool{"main.knut": true}
+	used := map[string]bool{l.Names[0]: true}
 	for f := 1; f < nf; f++ {
 		p := r.Intn(f)
 		if r.P(0.5) {
